@@ -18,6 +18,8 @@
 (***************************************************************************)
 EXTENDS Integers, Sequences, FiniteSets, TLC
 
+CONSTANT FixCleanup     \* TRUE: set_pkt_logging removes every old handler (since e6ce7db); FALSE: every other one (before)
+
 Impl == {}
 FG == INSTANCE FrameGrammar
 
@@ -74,4 +76,40 @@ AcceptedOf(ps) == LET sel == SelectSeq(ps, Accepted) IN [j \in 1..Len(sel) |-> P
 \* the law (T): what is replayed from the written log is exactly what was accepted, in order
 WriteAll(ps) == LET sel == SelectSeq(ps, Logged) IN [j \in 1..Len(sel) |-> Line(sel[j])]
 L_LogIdentity(ps) == Replay(WriteAll(ps)) = AcceptedOf(ps)
+
+\* ---- histories: the packet log configured several times in one process (logger.set_pkt_logging) -----
+\* A history is a sequence of sessions [file, console, ps]: set_pkt_logging(file_name = file ("" = none),
+\* cc_console = (console = 1)) followed by the offered lines ps (a second Gateway object, a reload with
+\* another file, ...).  PKT_LOGGER's handler list is a sequence of <<kind, file>>, kind "file" / "null" /
+\* "stderr" / "stdout".  The clean-up loop at the top of set_pkt_logging removes the old handlers:
+\*   FixCleanup:   for handler in list(logger.handlers): logger.removeHandler(handler)     - all of them
+\*   ~FixCleanup:  for handler in logger.handlers: ...  (the code before e6ce7db) removes from the list it
+\*                 iterates, so the handlers at the 2nd, 4th, ... place survive it (with cc_console the list is
+\*                 [file, stderr, stdout]: two configurations later an old *file* handler is among the survivors)
+Survivors(hs) == IF FixCleanup THEN <<>> ELSE [j \in 1..(Len(hs) \div 2) |-> hs[2 * j]]
+Configure(hs, file, console) ==
+  Survivors(hs)
+  \o (IF file # "" THEN << <<"file", file>> >> ELSE IF console = 1 THEN << <<"null", "">> >> ELSE <<>>)
+  \o (IF console = 1 THEN << <<"stderr", "">>, <<"stdout", "">> >> ELSE <<>>)
+LogOn(file, console) == file # "" \/ console = 1        \* otherwise the level is CRITICAL: nothing is emitted
+
+\* a record goes to every handler in turn and each file handler flushes per record: a file that is held by n
+\* handlers gets every line n times in a row
+NFile(hs, f) == Cardinality({i \in 1..Len(hs) : hs[i] = <<"file", f>>})
+Dup(ls, n) == [k \in 1..(Len(ls) * n) |-> ls[((k - 1) \div n) + 1]]
+FilesOf(h) == {h[k].file : k \in 1..Len(h)} \ {""}
+RECURSIVE RunHist(_, _, _, _)
+RunHist(h, k, hs, files) ==      \* files: file name -> the lines it holds (handlers open with mode 'a')
+  IF k > Len(h) THEN files
+  ELSE LET s   == h[k]
+           hs2 == Configure(hs, s.file, s.console)
+           new == IF LogOn(s.file, s.console) THEN WriteAll(s.ps) ELSE <<>>
+       IN  RunHist(h, k + 1, hs2, [f \in DOMAIN files |-> files[f] \o Dup(new, NFile(hs2, f))])
+HistFiles(h) == RunHist(h, 1, <<>>, [f \in FilesOf(h) |-> <<>>])
+RECURSIVE OfferedTo(_, _, _)
+OfferedTo(h, k, f) ==            \* what was offered while f was the configured packet log, in order
+  IF k > Len(h) THEN <<>> ELSE (IF h[k].file = f THEN h[k].ps ELSE <<>>) \o OfferedTo(h, k + 1, f)
+
+\* the law over histories: every log file replays as exactly what was accepted during its own session(s)
+L_HistIdentity(h) == \A f \in FilesOf(h) : Replay(HistFiles(h)[f]) = AcceptedOf(OfferedTo(h, 1, f))
 =============================================================================
